@@ -45,6 +45,10 @@ pub struct Params {
     /// back-pressure limit in units of one single-row batch's in-memory size (0 = practically unlimited)
     #[serde(default)]
     pub max_buffer_batches: usize,
+    /// a crash may also catch a write that was never acknowledged in the middle of its WAL append: the first bytes of its
+    /// entry are on disk (in a freshly rotated segment if the current one is full), the rest is not
+    #[serde(default)]
+    pub torn_append: bool,
 }
 
 fn one() -> usize {
@@ -292,16 +296,43 @@ impl Scenario for IngestScenario {
 
     fn extras(&self, _ctl: &Ctl) -> Vec<Extra> {
         if self.p.crash && self.crashes < self.p.max_crashes.max(1) && self.shared.lock().unwrap().recovery_done {
-            vec![Extra { label: "CRASH".into(), cost: Cost { crash: 1, ..Cost::ZERO } }]
+            let mut v = vec![Extra { label: "CRASH".into(), cost: Cost { crash: 1, ..Cost::ZERO } }];
+            if self.p.torn_append {
+                v.push(Extra { label: "CRASH+TORN-APPEND".into(), cost: Cost { crash: 1, ..Cost::ZERO } });
+            }
+            v
         } else {
             vec![]
         }
     }
 
-    async fn apply_extra(&mut self, ctl: &Ctl, _x: &Extra) {
+    async fn apply_extra(&mut self, ctl: &Ctl, x: &Extra) {
         ctl.crash_node("I");
         ctl.settle().await;
         self.shared.lock().unwrap().ingester = None;
+        if x.label == "CRASH+TORN-APPEND" {
+            // what an unacknowledged write that died in the middle of its append leaves behind
+            let mut segs: Vec<(u64, PathBuf)> = std::fs::read_dir(&self.dir)
+                .map(|d| d.filter_map(|e| e.ok()).filter_map(|e| { let n = e.file_name().to_string_lossy().to_string(); n.strip_prefix("segment-").and_then(|r| r.strip_suffix(".wal")).and_then(|i| i.parse::<u64>().ok()).map(|i| (i, e.path())) }).collect())
+                .unwrap_or_default();
+            segs.sort();
+            let torn = [0x57u8, 0x41, 0x4c, 0x00, 0x00, 0x00, 0x01, 0x00, 0x00];
+            match segs.last() {
+                Some((id, path)) if std::fs::metadata(path).map(|m| (m.len() as usize) < self.p.max_segment_size).unwrap_or(false) => {
+                    use std::io::Write;
+                    let _ = id;
+                    if let Ok(mut f) = std::fs::OpenOptions::new().append(true).open(path) {
+                        let _ = f.write_all(&torn);
+                    }
+                }
+                Some((id, _)) => {
+                    let _ = std::fs::write(self.dir.join(format!("segment-{:06}.wal", id + 1)), torn);
+                }
+                None => {
+                    let _ = std::fs::write(self.dir.join("segment-000001.wal"), torn);
+                }
+            }
+        }
         self.crashed = true;
         self.crashes += 1;
         // facts for the violation signature: what the disk says at the crash
@@ -449,6 +480,7 @@ pub fn plans(tier: &str) -> Vec<(Params, Cost)> {
         max_crashes: 1,
         after_restart2: vec![],
         max_buffer_batches: 0,
+        torn_append: false,
     };
     let mut v = vec![
         (Params { name: "faults".into(), faults: true, ..base.clone() }, Cost { preempt: 1, fault: if t { 2 } else { 1 }, ..Cost::ZERO }),
@@ -465,6 +497,14 @@ pub fn plans(tier: &str) -> Vec<(Params, Cost)> {
         Params { name: "crash-restart-crash/threshold-3/two-entries-per-segment".into(), crash: true, max_crashes: 2, writers: vec![vec![(1, 0), (2, 0), (3, 0), (4, 0), (5, 0)]], after_restart: vec![], after_restart2: vec![(6, 0)], flush_row_count: 3, max_segment_size: 2 * 700, ticks: 0, hooks: vec!["write:after_wal_append".to_string(), "flush:before_persist".to_string()], ..base.clone() },
         Cost { preempt: 0, crash: 2, ..Cost::ZERO },
     ));
+    // the crash also catches an unacknowledged write in the middle of its WAL append (torn bytes at the tail of the log, in
+    // a freshly rotated segment when every entry rotates); a write and a flush after the restart, then a second crash
+    for (name, seg) in [("rotate-every-entry", 1usize), ("one-segment", 64 << 20)] {
+        v.push((
+            Params { name: format!("crash-with-torn-unacknowledged-append/{name}"), crash: true, torn_append: true, max_crashes: 2, writers: vec![vec![(1, 0), (2, 0), (3, 0)]], after_restart: vec![(4, 0)], flush_row_count: 4, max_segment_size: seg, ticks: 0, hooks: vec!["write:after_wal_append".to_string(), "flush:before_persist".to_string()], ..base.clone() },
+            Cost { preempt: 0, crash: 2, ..Cost::ZERO },
+        ));
+    }
     // schema change (flush-before-append inside a write), a write after the restart, rotation on every entry: in both tiers
     v.push((
         Params { name: "crash/schema-change+write-after-restart+rotate-every-entry".into(), crash: true, writers: vec![vec![(1, 0), (3, 1)], vec![(2, 0)]], after_restart: vec![(4, 0)], max_segment_size: 1, ticks: 2, ..base.clone() },
